@@ -27,7 +27,7 @@ TEST_CID = 0x3E
 # ('connect', name, central, peripheral)      awaited
 # ('connect_bg', name, central, peripheral)   started, completion awaited by ('join', name)
 # ('join', name)
-# ('send', name, 'c'|'p', tag)        the central / peripheral end of connection `name` sends one PDU
+# ('send', name, 'c'|'p', tag)        the central / peripheral end of connection `name` sends one PDU ('sendq': without letting the event loop run afterwards; 'sendq?': sent towards an end that is about to disconnect, so it may be lost - if it arrives it arrives once, intact, in order)
 # ('disc', name, 'c'|'p')             that end disconnects
 SCRIPTS = {
     'pair': (2, [('adv', 1), ('connect', 'x', 0, 1), ('send', 'x', 'c', 1), ('send', 'x', 'p', 2), ('send', 'x', 'c', 3), ('disc', 'x', 'c')]),
@@ -45,11 +45,16 @@ SCRIPTS = {
     # while y and z are live -> every live connection must keep a distinct handle and its own data
     'handle_reuse': (4, [('adv', 1), ('adv', 2), ('adv', 3), ('connect', 'x', 0, 1), ('connect', 'y', 0, 2), ('disc', 'x', 'c'), ('connect', 'z', 0, 3), ('adv', 1), ('connect', 'x2', 0, 1), ('send', 'x2', 'c', 1), ('send', 'y', 'c', 2), ('send', 'z', 'c', 3), ('send', 'x2', 'p', 4), ('send', 'y', 'p', 5), ('send', 'z', 'p', 6), ('disc', 'y', 'c'), ('send', 'z', 'c', 7), ('send', 'x2', 'c', 8), ('disc', 'z', 'p'), ('disc', 'x2', 'c')]),
     # two dual-mode devices connected over LE and BR/EDR at the same time: each PDU stays on its own connection
+    # PDUs handed over back to back and the link closed straight afterwards, with no turn of the event loop in between:
+    # what was sent before the disconnect request still belongs to the connection and must arrive, in order
+    'burst_cdisc': (2, [('adv', 1), ('connect', 'x', 0, 1), ('sendq', 'x', 'c', 1), ('sendq', 'x', 'c', 2), ('sendq?', 'x', 'p', 3), ('sendq', 'x', 'c', 4), ('disc', 'x', 'c')]),
+    'burst_pdisc': (2, [('adv', 1), ('connect', 'x', 0, 1), ('sendq', 'x', 'p', 1), ('sendq?', 'x', 'c', 2), ('sendq', 'x', 'p', 3), ('disc', 'x', 'p')]),
+    'burst_two_links': (3, [('adv', 1), ('adv', 2), ('connect', 'x', 0, 1), ('connect', 'y', 0, 2), ('sendq', 'x', 'c', 1), ('sendq', 'y', 'c', 2), ('sendq', 'x', 'c', 3), ('sendq?', 'y', 'p', 4), ('disc', 'x', 'c'), ('sendq', 'y', 'c', 5), ('disc', 'y', 'c')]),
     'dual_mode': (2, [('adv', 1), ('connect', 'x', 0, 1), ('connect_cl', 'y', 0, 1), ('send', 'x', 'c', 1), ('send', 'y', 'c', 2), ('send', 'y', 'p', 3), ('send', 'x', 'p', 4), ('disc', 'x', 'c'), ('send', 'y', 'c', 5), ('send', 'y', 'p', 6), ('disc', 'y', 'p')]),
     'dual_mode_rev': (2, [('connect_cl', 'y', 0, 1), ('adv', 1), ('connect', 'x', 0, 1), ('send', 'y', 'p', 1), ('send', 'x', 'p', 2), ('send', 'x', 'c', 3), ('send', 'y', 'c', 4), ('disc', 'y', 'c'), ('send', 'x', 'c', 5), ('send', 'x', 'p', 6), ('disc', 'x', 'p')]),
 }
 DUAL_SCRIPTS = ('dual_mode', 'dual_mode_rev')
-CLASSIC_SCRIPTS = ['pair', 'pair_pdisc', 'reconnect', 'fan_out', 'fan_in', 'chain', 'handle_reuse']
+CLASSIC_SCRIPTS = ['pair', 'pair_pdisc', 'reconnect', 'fan_out', 'fan_in', 'chain', 'handle_reuse', 'burst_cdisc', 'burst_pdisc', 'burst_two_links']
 
 
 def payload(tag, name):
@@ -104,7 +109,7 @@ def run_script(cfg, script_name, sched=None):
         viol.append((check, dict(sig, transport=cfg['transport']), msg))
 
     dual = script_name in DUAL_SCRIPTS
-    with World(n, classic=classic or dual, le=not classic, controller_attrs=attrs) as w:
+    with World(n, classic=classic or dual, le=not classic, controller_attrs=attrs, direct=bool(cfg.get('direct'))) as w:
         w.link.controllers.reorder(cfg['order'])
         w.power_on()
         obs = Obs(w)
@@ -113,6 +118,7 @@ def run_script(cfg, script_name, sched=None):
             sched.active = True
         conns = {}  # name -> dict(c=dev, p=dev, cconn=..., pconn=..., sent={'c':[], 'p':[]}, alive)
         bg = {}
+        burst = []
         horizon = lambda: w.loop.time() + 5.0
 
         def settle():
@@ -207,7 +213,7 @@ def run_script(cfg, script_name, sched=None):
                         bad('connect_failed', {'script': script_name, 'conn': op[1]}, f'{script_name}: background connect of device {central} to {target} raised {t.exception()!r}')
                         break
                     finish_connect(op[1], central, peripheral, t.result(), target)
-                elif kind == 'send':
+                elif kind in ('send', 'sendq', 'sendq?'):
                     _, name, side, tag = op
                     k = conns.get(name)
                     if not k or k['pconn'] is None:
@@ -216,15 +222,26 @@ def run_script(cfg, script_name, sched=None):
                     dev = w.devices[k[side]]
                     data = payload(tag, name)
                     k.setdefault('sent', {'c': [], 'p': []})[side].append(data)
-                    dev.send_l2cap_pdu(conn.handle, TEST_CID, data)
-                    settle()
+                    if kind == 'send':
+                        dev.send_l2cap_pdu(conn.handle, TEST_CID, data)
+                        settle()
+                    else:
+                        # handed over by the coroutine that runs the next 'disc' (same turn of the event loop)
+                        burst.append(lambda dev=dev, h=conn.handle, data=data: dev.send_l2cap_pdu(h, TEST_CID, data))
                 elif kind == 'disc':
                     _, name, side = op
                     k = conns.get(name)
                     if not k or k['pconn'] is None:
                         continue
                     conn = k['cconn'] if side == 'c' else k['pconn']
-                    t = w.loop.create_task(conn.disconnect())
+
+                    async def send_then_disconnect(conn=conn, todo=list(burst)):
+                        for f in todo:
+                            f()
+                        await conn.disconnect()
+
+                    burst.clear()
+                    t = w.loop.create_task(send_then_disconnect())
                     if not w.loop.run_until(t.done, horizon=horizon(), max_steps=100000):
                         bad('disconnect_hang', {'script': script_name}, f'{script_name}: disconnect of {name} by its {side} end never completed')
                     settle()
@@ -257,15 +274,20 @@ def run_script(cfg, script_name, sched=None):
                     alive.remove(e[1])
         # (3) data: each PDU exactly once, in order, at the peer end and nowhere else
         expected_rx = [[] for _ in range(n)]
+        optional = set()
         order_per_dev = []
         for op in ops:
-            if op[0] == 'send' and op[1] in conns and conns[op[1]]['pconn'] is not None:
+            if op[0] in ('send', 'sendq', 'sendq?') and op[1] in conns and conns[op[1]]['pconn'] is not None:
                 k = conns[op[1]]
                 rcv_side = 'p' if op[2] == 'c' else 'c'
                 rconn = k['pconn'] if rcv_side == 'p' else k['cconn']
                 expected_rx[k[rcv_side]].append((rconn.handle, payload(op[3], op[1])))
+                if op[0] == 'sendq?':
+                    optional.add((rconn.handle, payload(op[3], op[1])))
         for i in range(n):
             got = [(e[1], e[2]) for e in obs.events[i] if e[0] == 'rx']
+            if got != expected_rx[i] and got == [x for x in expected_rx[i] if x not in optional or x in got]:
+                continue  # only PDUs racing with the receiver's own disconnect are missing
             if got != expected_rx[i]:
                 missing = [x for x in expected_rx[i] if x not in got]
                 extra = [x for x in got if x not in expected_rx[i]]
@@ -365,6 +387,13 @@ def configs(quick):
                         if all(ext) and adv_own == 'random' and script not in DUAL_SCRIPTS and order == orders[0]:
                             # extended advertising sets that advertise with a random address of their own
                             out.append(({'transport': 'le', 'init_own': init_own, 'adv_own': [adv_own] * n, 'ext': list(ext), 'order': list(order), 'set_addr': True}, script))
+    # hosts wired to their controllers synchronously (no HCI transport delay at all): commands take effect at once
+    for script in ('pair', 'pair_pdisc', 'reconnect', 'fan_out', 'burst_cdisc', 'burst_pdisc', 'burst_two_links') + (() if quick else ('fan_in', 'chain', 'handle_reuse')):
+        n = SCRIPTS[script][0]
+        for init_own in ('random', 'public'):
+            for adv_own in ('random', 'public'):
+                out.append(({'transport': 'le', 'init_own': init_own, 'adv_own': [adv_own] * n, 'ext': [False] * n, 'order': list(range(n)), 'direct': True}, script))
+        out.append(({'transport': 'classic', 'init_own': 'public', 'adv_own': ['public'] * n, 'ext': [False] * n, 'order': list(range(n)), 'direct': True}, script))
     for script in CLASSIC_SCRIPTS:
         n = SCRIPTS[script][0]
         for order in list(itertools.permutations(range(n)))[:: (1 if n < 4 else 5)]:
@@ -424,10 +453,13 @@ def run(ctx: core.Context) -> int:
         for r in core.pmap(w_scan, core.split(scan_configs(quick), ctx.jobs * 2), ctx.jobs):
             ctx.sub('scanning').merge(r)
         ctx.log('scanning', ctx.sub('scanning').summary())
+        for r in core.pmap(w_scan_raw, core.split(scan_raw_configs(quick), ctx.jobs * 2), ctx.jobs):
+            ctx.sub('scanning_raw').merge(r)
+        ctx.log('scanning_raw', ctx.sub('scanning_raw').summary())
     if not only or 'sched' in only:
         st = ctx.sub('schedules')
         reps = []
-        for script in ('pair', 'fan_out', 'fan_in', 'chain_race', 'incoming_while_pending') if quick else list(SCRIPTS):
+        for script in ('pair', 'fan_out', 'fan_in', 'chain_race', 'incoming_while_pending', 'burst_cdisc', 'burst_pdisc') if quick else list(SCRIPTS):
             n = SCRIPTS[script][0]
             reps.append(({'transport': 'le', 'init_own': 'random', 'adv_own': ['random'] * n, 'ext': [False] * n, 'order': list(range(n))}, script))
             if not quick:
@@ -455,10 +487,148 @@ def run(ctx: core.Context) -> int:
 def replay(v: core.Violation):
     c = v.case
     if v.check.startswith('scan_'):
-        viol, _ = run_scan(c['cfg'])
+        viol, _ = run_scan_raw(c['cfg']) if c.get('raw') else run_scan(c['cfg'])
         return [m for ck, _, m in viol if ck == v.check]
     if 'params' in c:
         r = run_c06(c['params'], c['prefix'], None)
         return [m for ck, _, m in r['viol'] if ck == v.check]
     _, viol, _ = run_script(c['cfg'], c['script'], explore.Sched(c.get('prefix') or {}) if c.get('prefix') else None)
     return [m for ck, _, m in viol if ck == v.check]
+
+
+# ---------------------------------------------------------------------------
+# scanning sub-check, host-driven: the advertiser's HOST sets (and later replaces) its data with raw HCI commands, in
+# every form the commands allow (whole, or as first / intermediate / last fragments), so the controller's bookkeeping
+# of an advertising set's data across updates is what the scanner's reports are compared with
+# ---------------------------------------------------------------------------
+RAW_FORMS = {
+    'whole': lambda d: [(3, d)],
+    'two': lambda d: [(1, d[: len(d) // 2]), (2, d[len(d) // 2 :])],
+    'three': lambda d: [(1, d[:2]), (0, d[2:5]), (2, d[5:])],
+    'four': lambda d: [(1, d[:1]), (0, d[1:2]), (0, d[2:6]), (2, d[6:])],
+}
+
+
+def raw_histories(quick):
+    forms = list(RAW_FORMS)
+    out = [(a,) for a in forms] + [(a, b) for a in forms for b in forms]
+    if not quick:
+        out += [(a, b, c) for a in forms for b in forms for c in forms]
+    return out
+
+
+def run_scan_raw(cfg):
+    """cfg: dict(kind='ext'|'legacy', history=(form, ...), what='adv'|'scan_rsp', active=bool)"""
+    from bumble import hci
+    from bumble.controller import Controller
+
+    viol = []
+    attrs = {1: {'le_features': Controller.le_features | hci.LeFeatureMask.LE_EXTENDED_ADVERTISING}} if cfg['kind'] == 'ext' else {}
+    with World(2, controller_attrs=attrs) as w:
+        w.power_on()
+        host = w.hosts[1]
+        reports = []
+        w.hosts[0].on('advertising_report', lambda r: reports.append((bytes(r.address), bytes(r.data), int(r.event_type) == 4)))
+
+        def cmd(c):
+            r = w.loop.run(host.send_command(c), horizon=w.loop.time() + 5)
+            return r
+
+        addr = w.devices[1].random_address
+        if cfg['kind'] == 'ext':
+            cmd(hci.HCI_LE_Set_Extended_Advertising_Parameters_Command(
+                advertising_handle=0, advertising_event_properties=0x13, primary_advertising_interval_min=0x140, primary_advertising_interval_max=0x140,
+                primary_advertising_channel_map=7, own_address_type=1, peer_address_type=0, peer_address=hci.Address('00:00:00:00:00:00'),
+                advertising_filter_policy=0, advertising_tx_power=0, primary_advertising_phy=1, secondary_advertising_max_skip=0,
+                secondary_advertising_phy=1, advertising_sid=0, scan_request_notification_enable=0))
+            cmd(hci.HCI_LE_Set_Advertising_Set_Random_Address_Command(advertising_handle=0, random_address=addr))
+        else:
+            cmd(hci.HCI_LE_Set_Advertising_Parameters_Command(
+                advertising_interval_min=0x140, advertising_interval_max=0x140, advertising_type=0, own_address_type=1, peer_address_type=0,
+                peer_address=hci.Address('00:00:00:00:00:00'), advertising_channel_map=7, advertising_filter_policy=0))
+        w.loop.run(w.devices[0].start_scanning(active=cfg['active'], filter_duplicates=False), horizon=w.loop.time() + 5)
+
+        def enable(on):
+            if cfg['kind'] == 'ext':
+                cmd(hci.HCI_LE_Set_Extended_Advertising_Enable_Command(enable=int(on), advertising_handles=[0], durations=[0], max_extended_advertising_events=[0]))
+            else:
+                cmd(hci.HCI_LE_Set_Advertising_Enable_Command(advertising_enable=int(on)))
+
+        sig = {'advertiser': cfg['kind'], 'data': cfg['what'], 'active': cfg['active']}
+        for step, form in enumerate(cfg['history']):
+            # data of this generation: distinct from every earlier generation, 9 + step bytes
+            data = bytes([8 + step, 0xFF] + [(0x30 * (step + 1) + j) & 0xFF for j in range(7 + step)])
+            other = bytes([2, 1, 6])
+            frags = RAW_FORMS[form](data) if cfg['kind'] == 'ext' else [(3, data)]
+            for op, chunk in frags:
+                if cfg['kind'] == 'ext':
+                    if cfg['what'] == 'adv':
+                        cmd(hci.HCI_LE_Set_Extended_Advertising_Data_Command(advertising_handle=0, operation=op, fragment_preference=0, advertising_data=chunk))
+                    else:
+                        cmd(hci.HCI_LE_Set_Extended_Scan_Response_Data_Command(advertising_handle=0, operation=op, fragment_preference=0, scan_response_data=chunk))
+                elif cfg['what'] == 'adv':
+                    cmd(hci.HCI_LE_Set_Advertising_Data_Command(advertising_data=chunk))
+                else:
+                    cmd(hci.HCI_LE_Set_Scan_Response_Data_Command(scan_response_data=chunk))
+            if step == 0:
+                # the other kind of data stays what it is throughout
+                if cfg['kind'] == 'ext':
+                    if cfg['what'] == 'adv':
+                        cmd(hci.HCI_LE_Set_Extended_Scan_Response_Data_Command(advertising_handle=0, operation=3, fragment_preference=0, scan_response_data=other))
+                    else:
+                        cmd(hci.HCI_LE_Set_Extended_Advertising_Data_Command(advertising_handle=0, operation=3, fragment_preference=0, advertising_data=other))
+                elif cfg['what'] == 'adv':
+                    cmd(hci.HCI_LE_Set_Scan_Response_Data_Command(scan_response_data=other))
+                else:
+                    cmd(hci.HCI_LE_Set_Advertising_Data_Command(advertising_data=other))
+            del reports[:]
+            enable(True)
+            w.loop.advance(1.0)
+            w.loop.run_quiescent()
+            enable(False)
+            w.loop.run_quiescent()
+            mine = [r for r in reports if r[0] == bytes(addr)]
+            advs = [r[1] for r in mine if not r[2]]
+            srs = [r[1] for r in mine if r[2]]
+            want_adv, want_sr = (data, other) if cfg['what'] == 'adv' else (other, data)
+            where = f'{cfg["kind"]} advertiser, {cfg["what"]} data set as {list(cfg["history"][: step + 1])} (generation {step})'
+            if not advs:
+                viol.append(('scan_no_report', dict(sig, kind='no_advertising_report', raw=True), f'{where}: scanner got no advertising report'))
+                break
+            if any(a != want_adv for a in advs):
+                viol.append(('scan_adv_data', dict(sig, kind='advertising_data_differs', raw=True, form=form), f'{where}: advertising report carries {advs[0].hex()}, the host set {want_adv.hex()}'))
+                break
+            if cfg['active'] and srs and any(x != want_sr for x in srs):
+                # same signature as the Device-driven scanning sub-check: one root cause (known finding: scan response
+                # reports are filled with the advertising data)
+                v = ('scan_rsp_data', {'ext_scanner': False, 'active': True, 'kind': 'scan_response_data_differs'}, f'{where}: scan response report carries {srs[0].hex()}, the host set {want_sr.hex()}')
+                if v[:2] not in [x[:2] for x in viol]:
+                    viol.append(v)
+        w.loop.collect_exceptions()
+    return viol, len(reports)
+
+
+def scan_raw_configs(quick):
+    out = []
+    for kind in ('ext', 'legacy'):
+        for what in ('adv', 'scan_rsp'):
+            for active in (False, True):
+                if what == 'scan_rsp' and not active:
+                    continue
+                hs = raw_histories(quick) if kind == 'ext' else [('whole',), ('whole', 'whole'), ('whole', 'whole', 'whole')]
+                for h in hs:
+                    out.append({'kind': kind, 'what': what, 'active': active, 'history': list(h)})
+    return out
+
+
+def w_scan_raw(arg):
+    st = core.Stats('scanning_raw')
+    for cfg in arg:
+        viol, nrep = run_scan_raw(cfg)
+        st.case(cfg, None)
+        st.count('reports_seen', nrep)
+        for check, sig, msg in viol:
+            st.violation(check, sig, f'[{cfg}] {msg}', {'cfg': cfg, 'raw': True})
+        if len(st.samples) < 2:
+            st.samples.append({'cfg': cfg, 'reports': nrep})
+    return st
